@@ -137,4 +137,60 @@ theorem tupZip_iff (as bs : List Ty) (k : Int) (has : as ≠ []) (hbs : bs ≠ [
         as[min i (as.length - 1)]? = some a → bs[min i (bs.length - 1)]? = some b → asg cfg sfh a b = true :=
   tupZip_iff_aux cfg sfh _ as bs k (Nat.le_refl _) has hbs
 
+/-- `tupleAssignableTo` after the repair: the declared types at positions an instance can have -/
+theorem tupZipL_iff (e : Ty) (ts : List Ty) (k : Int) (hne : ts ≠ []) :
+    tupZip cfg sfh [e] ts k = true ↔ ∀ (j : Nat) (t : Ty), (j : Int) < k → ts[j]? = some t → asg cfg sfh e t = true := by
+  rw [tupZip_iff cfg sfh [e] ts k (by simp) hne]
+  have hpos : 0 < ts.length := List.length_pos_iff.2 hne
+  constructor
+  · intro H j t hj hget
+    have hjl : j < ts.length := by
+      rcases Nat.lt_or_ge j ts.length with h | h
+      · exact h
+      · rw [List.getElem?_eq_none h] at hget; cases hget
+    refine H j e t hj ?_ ?_ ?_
+    · simp only [List.length_singleton]; omega
+    · have : min j ([e].length - 1) = 0 := by simp
+      rw [this]; rfl
+    · have : min j (ts.length - 1) = j := by omega
+      rw [this]; exact hget
+  · intro H i a b hi hmax ha hb
+    have h0 : min i ([e].length - 1) = 0 := by simp
+    rw [h0] at ha
+    have hae : a = e := by simp at ha; exact ha.symm
+    subst hae
+    simp only [List.length_singleton] at hmax
+    have hil : i < ts.length := by omega
+    have : min i (ts.length - 1) = i := by omega
+    rw [this] at hb
+    exact H i b hi hb
+
+/-- `TupleType.IsAssignable(Array)` after the repair: the declared types at positions the array can fill -/
+theorem tupZipR_iff (ts : List Ty) (e : Ty) (k : Int) (hne : ts ≠ []) :
+    tupZip cfg sfh ts [e] k = true ↔ ∀ (j : Nat) (t : Ty), (j : Int) < k → ts[j]? = some t → asg cfg sfh t e = true := by
+  rw [tupZip_iff cfg sfh ts [e] k hne (by simp)]
+  have hpos : 0 < ts.length := List.length_pos_iff.2 hne
+  constructor
+  · intro H j t hj hget
+    have hjl : j < ts.length := by
+      rcases Nat.lt_or_ge j ts.length with h | h
+      · exact h
+      · rw [List.getElem?_eq_none h] at hget; cases hget
+    refine H j t e hj ?_ ?_ ?_
+    · simp only [List.length_singleton]; omega
+    · have : min j (ts.length - 1) = j := by omega
+      rw [this]; exact hget
+    · have : min j ([e].length - 1) = 0 := by simp
+      rw [this]; rfl
+  · intro H i a b hi hmax ha hb
+    have h0 : min i ([e].length - 1) = 0 := by simp
+    rw [h0] at hb
+    have hbe : b = e := by simp at hb; exact hb.symm
+    subst hbe
+    simp only [List.length_singleton] at hmax
+    have hil : i < ts.length := by omega
+    have : min i (ts.length - 1) = i := by omega
+    rw [this] at ha
+    exact H i a hi ha
+
 end Pcore.Lat
